@@ -5,10 +5,10 @@
 use super::*;
 use std::sync::atomic::{AtomicBool, AtomicI64, AtomicU64, AtomicU8, Ordering::Relaxed};
 
-static CALLS: AtomicU8 = AtomicU8::new(0);
-static OFFSET: AtomicI64 = AtomicI64::new(0);
-static DELAY: AtomicI64 = AtomicI64::new(0);
-static LOCALTIME: AtomicU64 = AtomicU64::new(0);
+static CALLS: crate::verif_common::Ghost<AtomicU8> = crate::verif_common::Ghost::new(0x67b0920f43715c71, AtomicU8::new(0));
+static OFFSET: crate::verif_common::Ghost<AtomicI64> = crate::verif_common::Ghost::new(0x677aef41ab22f056, AtomicI64::new(0));
+static DELAY: crate::verif_common::Ghost<AtomicI64> = crate::verif_common::Ghost::new(0x67028a676eda27c7, AtomicI64::new(0));
+static LOCALTIME: crate::verif_common::Ghost<AtomicU64> = crate::verif_common::Ghost::new(0x67603fac58655170, AtomicU64::new(0));
 
 fn raw(d: NtpDuration) -> i64 {
     i64::from_be_bytes((NtpTimestamp::from_bits([0; 8]) + d).to_bits())
